@@ -145,6 +145,8 @@ def undo(key, d, baseline=None):
         if not progressed:
             break
     if done:
+        for ch in hir.values():
+            unwrap_option_helpers(ch.get("body"))
         d["hir"] = [h for h in d["hir"] if h["fn"] in hir]
         d.setdefault("unextracted", []).extend(done)
     return d, done
@@ -281,3 +283,62 @@ def specialise(block):
                 chosen = n["then"] if val else (n.get("else") or {"k": "block", "stmts": [], "tail": None})
                 n.clear()
                 n.update(copy.deepcopy(chosen) if False else chosen)
+
+
+# --------------------------------------------------------------------------- `if let Some(x) = helper(..)` with an Option-returning helper
+# A helper extracted from the head of an if/else usually reads `if <not applicable> { return None } ..; Some(value)` and
+# is used as `if let Some(x) = helper(..) { A } else { B }`. After inlining, that is rewritten to the if/else it came
+# from:  `if <applicable> { <helper's statements>; let x = value; A } else { B }`.
+_FLIP = {"Ne": "Eq", "Eq": "Ne", "Lt": "Ge", "Ge": "Lt", "Gt": "Le", "Le": "Gt"}
+
+
+def _negate(c):
+    if isinstance(c, dict) and c.get("k") == "bin" and c.get("op") in _FLIP:
+        d = dict(c)
+        d["op"] = _FLIP[c["op"]]
+        return d
+    if isinstance(c, dict) and c.get("k") == "un" and c.get("op") == "Not":
+        return c["e"]
+    return {"k": "un", "op": "Not", "e": c}
+
+
+def _is_none(e):
+    e = _strip(e)
+    return isinstance(e, dict) and e.get("k") == "path" and str(e.get("path", "")).split("::")[-1] == "None"
+
+
+def unwrap_option_helpers(tree):
+    for n in list(_walk(tree)):
+        if n.get("k") != "if" or not isinstance(n.get("cond"), dict) or n["cond"].get("k") != "letx":
+            continue
+        lx = n["cond"]
+        pat = lx.get("pat", {})
+        if not (pat.get("k") == "tstruct" and str(pat.get("path", "")).split("::")[-1] == "Some" and len(pat.get("pats", [])) == 1):
+            continue
+        blk = lx.get("init")
+        if not (isinstance(blk, dict) and blk.get("k") == "block" and blk.get("inlined")):
+            continue
+        body = blk.get("tail")
+        if not (isinstance(body, dict) and body.get("k") == "block"):
+            continue
+        stmts = list(body.get("stmts", []))
+        conds = []
+        while stmts and stmts[0].get("k") == "if" and stmts[0].get("else") is None:
+            th = stmts[0]["then"]
+            last = th.get("tail") if th.get("k") == "block" and not th.get("stmts") else (th["stmts"][0] if th.get("k") == "block" and len(th.get("stmts", [])) == 1 and th.get("tail") is None else None)
+            if isinstance(last, dict) and last.get("k") == "iret" and _is_none(last.get("e")):
+                conds.append(stmts.pop(0)["cond"])
+            else:
+                break
+        tail = body.get("tail")
+        if not conds or not (isinstance(tail, dict) and tail.get("k") == "call" and tail.get("res") == "ctor" and str(tail.get("fn", "")).split("::")[-1] == "Some" and len(tail.get("args", [])) == 1):
+            continue
+        if any(x.get("k") == "iret" for st in stmts for x in _walk(st)):
+            continue  # other exits remain: leave it
+        cond = _negate(conds[0])
+        for c2 in conds[1:]:
+            cond = {"k": "bin", "op": "And", "l": cond, "r": _negate(c2)}
+        new_then = {"k": "block", "stmts": list(blk.get("stmts", [])) + stmts + [{"k": "let", "pat": pat["pats"][0], "init": tail["args"][0]}], "tail": n["then"], "sp": n["then"].get("sp") if isinstance(n["then"], dict) else None}
+        # the condition reads the helper's parameters: give it the same bindings
+        n["cond"] = {"k": "block", "stmts": copy.deepcopy(list(blk.get("stmts", []))), "tail": cond, "ty": None} if blk.get("stmts") else cond
+        n["then"] = new_then
